@@ -89,18 +89,36 @@ def run(ctx: Ctx):
     adjacency_symmetry(ctx, f, bfs, "C08-O1")
 
     # O2 residual formula agreement
-    rs = residual_exprs(bfs.node, None)
-    rm = [n for n in own_nodes(f.node) if isinstance(n, ast.Assign) and isinstance(n.targets[0], ast.Name) and n.targets[0].id == "residual"]
-    ctx.require(len(rs) == 1 and len(rm) == 1, "residual computation not found once in bfs and once in the augmentation")
     it = [n for n in own_nodes(bfs.node) if isinstance(n, ast.For) and isinstance(n.iter, ast.Subscript)][0]
     a, b = ast.unparse(it.iter.slice), it.target.id
-    c1 = canon(rs[0].value, {a: "A", b: "B"})
-    c2 = canon(rm[0].value, {"u": "A", "v": "B"})
+
+    def residual_of(scope_nodes, names):
+        """[(expression, {name: A/B})]: `residual = <expr>` in the scope, or a call of a one-expression closure
+        `residual(x, y)` of max_flow (the closure's expression with its parameters standing for the arguments)"""
+        out = []
+        for n in scope_nodes:
+            if isinstance(n, ast.Assign) and isinstance(n.targets[0], ast.Name) and n.targets[0].id == "residual":
+                out.append((n.value, names, n))
+            elif isinstance(n, ast.Call) and isinstance(n.func, ast.Name) and n.func.id in f.children and n.func.id != "bfs":
+                h = f.children[n.func.id]
+                body = [x for x in h.node.body if not (isinstance(x, ast.Expr) and isinstance(x.value, ast.Constant))]
+                if len(body) == 1 and isinstance(body[0], ast.Return) and body[0].value is not None and len(n.args) == len(h.params) == 2 and all(isinstance(x, ast.Name) for x in n.args):
+                    ctx.touch(h)
+                    out.append((body[0].value, {p_: names.get(x.id, x.id) for p_, x in zip(h.params, n.args)}, n))
+        return out
+
+    rs = residual_of(list(own_nodes(bfs.node)), {a: "A", b: "B"})
+    rm = residual_of(list(own_nodes(f.node)), {"u": "A", "v": "B"})
+    ctx.require(len(rs) == 1 and len(rm) == 1, "residual computation not found once in bfs and once in the augmentation")
+    c1 = canon(rs[0][0], rs[0][1])
+    c2 = canon(rm[0][0], rm[0][1])
     want = canon(ast.parse("capacity[A][B] - flow[A][B] + flow[B][A]", mode="eval").body)
-    ctx.ob("C08-O2", "R18 SIBLING-AGREEMENT (expression)", f, "residual = capacity - flow + reverse flow, same form in search and bottleneck", c1 == c2 == want, f"search `{ast.unparse(rs[0].value)}` / bottleneck `{ast.unparse(rm[0].value)}`", node=rm[0])
+    ctx.ob("C08-O2", "R18 SIBLING-AGREEMENT (expression)", f, "residual = capacity - flow + reverse flow, same form in search and bottleneck", c1 == c2 == want, f"search `{ast.unparse(rs[0][0])}` / bottleneck `{ast.unparse(rm[0][0])}`: flow on the opposite arc is room that can be cancelled; with any other sign the search cannot undo an earlier choice and stops below the maximum", node=rm[0][2])
     # search only follows positive residual, unvisited; marks on enqueue; FIFO
+    import re as _re
+
     t = ast.unparse(bfs.node)
-    ctx.ob("C08-O2", "R21 search discipline", bfs, "search follows only arcs with positive residual to unvisited nodes, marks on enqueue, FIFO", "residual > 0" in t and "not in visited" in t and "visited.add(" in t and "popleft()" in t, "", node=bfs.node)
+    ctx.ob("C08-O2", "R21 search discipline", bfs, "search follows only arcs with positive residual to unvisited nodes, marks on enqueue, FIFO", bool(_re.search(r"residual(\([^()]*\))? > 0", t)) and "not in visited" in t and "visited.add(" in t and "popleft()" in t, "", node=bfs.node)
 
     # max-flow = min-cut is certified by the failing search and by nothing else: the loop runs until bfs() finds no path
     mloops = [n for n in own_nodes(f.node) if isinstance(n, ast.While) and any(isinstance(c, ast.Call) and ast.unparse(c.func) == "bfs" for c in ast.walk(n.test))]
@@ -147,7 +165,8 @@ def run(ctx: Ctx):
         at = {a for a in bgv.guard_atoms(bcfg.stmt_node_containing(e), stable_only=False, after_loops=False)}
         from sa.guards import atom_of
 
-        want_at = {atom_of(f"{b} not in visited"), atom_of("residual > 0")}
+        res_txt = "residual" if isinstance(rs[0][2], ast.Assign) else ast.unparse(rs[0][2])
+        want_at = {atom_of(f"{b} not in visited"), atom_of(f"{res_txt} > 0")}
         extra = sorted(a for a in at if a not in want_at and not a.startswith("IN-LOOP:") and a not in ("T:queue", atom_of("node != sink")))
         ctx.ob("C08-O5", "R21 search discipline", bfs, "a neighbour is enqueued under exactly `unvisited and residual > 0`", want_at <= at and not extra, f"guards {sorted(at)}", node=e)
     capw = [n for n in own_nodes(f.node) if isinstance(n, ast.AugAssign) and ast.unparse(n.target) == "capacity[u][v]"]
@@ -169,7 +188,7 @@ def run(ctx: Ctx):
         for s in bl.body:
             if isinstance(s, ast.Assign) and isinstance(s.value, ast.Call) and isinstance(s.value.func, ast.Name) and s.value.func.id == "min":
                 pf = s.targets[0].id
-                ok = {ast.unparse(x) for x in s.value.args} == {pf, "residual"}
+                ok = {ast.unparse(x) for x in s.value.args} == {pf, "residual" if isinstance(rm[0][2], ast.Assign) else ast.unparse(rm[0][2])}
                 ctx.ob("C08-O3", "R30 ACCUMULATOR-PAIRING", f, "bottleneck is the running minimum of the path residuals", ok, ast.unparse(s), node=s)
         ctx.require(pf is not None, "bottleneck accumulator not found")
         init = [s for s in w.body if isinstance(s, ast.Assign) and ast.unparse(s.targets[0]) == pf]
@@ -285,7 +304,27 @@ def _t_adj_sets(tree):
     M.replace_expr(b, lambda e: M.src_is(e, "capacity[node]") and True, M.expr("adj[node]"), count=1)
 
 
+def _residual_helper(tree, expr):
+    g = M.find_func(tree, "max_flow")
+    b = M.find_func(tree, "max_flow.bfs")
+    g.body.insert(g.body.index(b), M.stmts(f"def residual(u, v):\n    return {expr}")[0])
+    M.replace_stmt(b, lambda s: isinstance(s, ast.Assign) and M.src_is(s.targets[0], "residual"), [])
+    M.replace_expr(b, lambda e: M.src_is(e, "residual > 0"), M.expr("residual(node, neighbor) > 0"))
+    M.replace_stmt(g, lambda s: isinstance(s, ast.Assign) and M.src_is(s.targets[0], "residual"), [])
+    M.replace_expr(g, lambda e: M.src_is(e, "min(path_flow, residual)"), M.expr("min(path_flow, residual(u, v))"))
+
+
+def _v_residual_helper_wrong_sign(tree):
+    _residual_helper(tree, "capacity[u][v] - (flow[u][v] + flow[v][u])")
+
+
+def _t_residual_helper(tree):
+    _residual_helper(tree, "capacity[u][v] - flow[u][v] + flow[v][u]")
+
+
 VARIANTS = [
+    M.Variant("residual moved into a helper and parenthesised: reverse flow subtracted instead of added (seed C08-L)", FL, _v_residual_helper_wrong_sign, "C08-O2"),
+    M.Variant("twin: residual moved into a one-expression helper", FL, _t_residual_helper, None),
     M.Variant("reverse residual arcs not materialised (original defect)", FL, _v_no_reverse, "C08-O1"),
     M.Variant("search ignores cancellable reverse flow", FL, _v_residual_differs, "C08-O2"),
     M.Variant("flow value accumulated per arc instead of per path", FL, _v_total_in_loop, "C08-O3"),
